@@ -313,6 +313,25 @@ def _scaling_laws(cls):
     # the sampled t0 keeps (t0 - times[0])/dt away from the integers, where rounding decides a whole-sample jump (A1)
     w = _values(cls, t + s, p, va, R, ice, t0 + s)
     prove("joint-shift", _close(v, w, floor, 1e-3))
+    # moving only the shower time by whole samples moves the pulse by whole samples (compared where both windows overlap,
+    # a few samples away from the window edges)
+    k = integer("shift_samples", -40, 40)
+    u = _values(cls, t, p, va, R, ice, t0 + k * dt)
+    n = len(t)
+    lo, hi = max(0, k) + 3, min(n, n + k) - 3
+    if cls == ARZ:
+        if hi > lo:
+            prove("whole-sample-shift", _close(u[lo:hi], v[lo - k:hi - k], floor, 1e-6))
+    else:
+        # the frequency-domain models are periodic in their (extended) window: their pulse moves rigidly only as long as
+        # it and its periodic images stay clear of the window edges - compared around the pulse, both shower times
+        # in the central half of the window
+        c0 = (t0 - t[0]) / dt
+        if 0.3 * n <= c0 <= 0.7 * n and 0.3 * n <= c0 + k <= 0.7 * n and float(np.max(np.abs(v))) > 1e3 * floor:
+            pk = int(np.argmax(np.abs(v)))
+            a_, b_ = max(pk - 8, lo - k, 0), min(pk + 9, hi - k, n)
+            if b_ > a_ and a_ + k >= 0 and b_ + k <= n:
+                prove("whole-sample-shift", _close(u[a_ + k:b_ + k], v[a_:b_], floor, 2e-2))
     z = _values(cls, t, Particle(0, p.interaction.em_frac, p.interaction.had_frac, p.vertex[2]), va, R, ice, t0)
     prove("zero-energy-gives-zeros", len(z) == len(t) and bool(np.all(z == 0)))
     z2 = _values(cls, t, Particle(p.energy, 0, 0, p.vertex[2]), va, R, ice, t0)
@@ -431,3 +450,29 @@ def arz_small_showers_sampled():
     v = _values(ARZ, t, p, va, 10 ** real("log10_distance", 0, 3), ice, start + real("t0_fraction", 0.1, 0.9) * n * dt)
     prove("one-value-per-sample", len(v) == len(t))
     prove("finite-everywhere", bool(np.all(np.isfinite(v))))
+
+
+@harness(clause="bounded-whole-signal", bounded=40, label="B")
+def arz_off_cone_whole_sample_shift_sampled():
+    """ARZ a few degrees off the cone (the convolution branch, where the field is still sizeable): moving the shower time
+    by k samples moves the pulse by exactly k samples, wherever the shower time lies in the window"""
+    n = integer("times_len", 150, 400)
+    dt = real("grid_step", 5e-11, 2e-10)
+    start = real("grid_start", -1e-7, 1e-7)
+    t = start + dt * np.arange(n)
+    e = 10 ** real("log10_energy", 5, 11)
+    em = real("em_frac", 0, 1)
+    p = Particle(e, em, 1 - em, real("depth", -3000, 0))
+    ice = Ice(p.vertex[2], real("index", 1.3, 1.8))
+    theta_c = float(np.arccos(1 / ice.n))
+    off = real("offset_deg", 0.3, 4) * (1 if real("side", -1, 1) >= 0 else -1)
+    va = theta_c + np.radians(off)
+    t0 = start + (real("t0_fraction", 0.25, 0.75) * n + real("t0_subsample", 0.05, 0.95)) * dt
+    k = integer("shift_samples", -60, 60)
+    assume(0.2 * n <= (t0 - start) / dt + k <= 0.8 * n)
+    v = _values(ARZ, t, p, va, 100, ice, t0)
+    u = _values(ARZ, t, p, va, 100, ice, t0 + k * dt)
+    lo, hi = max(0, k) + 3, min(n, n + k) - 3
+    peak = float(np.max(np.abs(v)))
+    prove("pulse-present", peak > 0)
+    prove("whole-sample-shift", bool(np.all(np.abs(u[lo:hi] - v[lo - k:hi - k]) <= 1e-4 * peak)))
